@@ -15,6 +15,8 @@ from collections import Counter
 
 VERIF = os.path.dirname(os.path.dirname(os.path.abspath(__file__)))
 REPO = os.environ.get("VERIF_REPO", "/repo")
+# mutation-testing runs redirect their outputs so that the committed evidence is untouched
+OUT = os.environ.get("VERIF_OUT_DIR", VERIF)
 
 
 class Failure(Exception):
@@ -186,7 +188,7 @@ class Ctx:
         replay_paths = []
         for sig, d in violations:
             h = hashlib.blake2b(sig.encode(), digest_size=4).hexdigest()
-            path = os.path.join(VERIF, "replays", "%s-%s.json" % (self.pid, h))
+            path = os.path.join(OUT, "replays", "%s-%s.json" % (self.pid, h))
             os.makedirs(os.path.dirname(path), exist_ok=True)
             with open(path, "w") as f:
                 json.dump(
@@ -234,8 +236,8 @@ class Ctx:
             wall_s=round(wall, 2),
             violations=len(violations),
         )
-        os.makedirs(os.path.join(VERIF, "evidence"), exist_ok=True)
-        with open(os.path.join(VERIF, "evidence", "%s.json" % self.pid), "w") as f:
+        os.makedirs(os.path.join(OUT, "evidence"), exist_ok=True)
+        with open(os.path.join(OUT, "evidence", "%s.json" % self.pid), "w") as f:
             json.dump(ev, f, indent=1, default=repr)
             f.write("\n")
         print(
@@ -329,8 +331,16 @@ def hyp_search(stats, strategy, body, *, seed, max_examples, check, known=(), ro
             stats.failures.pop(ff.sig, None)
             stats.fail(ff, last.get("case"), check)
             suppressed.add(ff.sig)
-        except hypothesis.errors.Flaky as e:  # pragma: no cover
-            raise HarnessError("flaky property body in %s: %s" % (check, e))
+        except hypothesis.errors.Flaky as e:
+            # the code under test answered differently on a re-run of the same case (e.g. the
+            # solver returned another model).  The failure that was observed is still a genuine
+            # counterexample against a deterministic oracle; keep it, unshrunk.
+            if "f" not in last:
+                raise HarnessError("flaky property body in %s: %s" % (check, e))
+            ff = last["f"]
+            ff.detail = "non-deterministic under re-execution (Hypothesis Flaky); case not fully shrunk"
+            stats.fail(ff, last.get("case"), check)
+            suppressed.add(ff.sig)
         max_examples = max(50, max_examples // 2)
 
 
